@@ -68,7 +68,7 @@ P = {
          'Angles avoid exact gate values; buffer widths inside the non-degenerate range.', '3/C20'),
 }
 
-DONE = ['C03', 'C05', 'C06']
+DONE = ['C01', 'C02', 'C03', 'C05', 'C06', 'C09', 'C10']
 
 PENDING_REASON = ('check under construction in this session (design in '
                   'DESIGN.md section 3); not claimed until it runs clean on '
